@@ -1,6 +1,9 @@
 """Developer helper: verify the given contract keys and print non-proved obligations."""
 import sys
 sys.path.insert(0, '/verif')
+import os
+_R = os.environ.get('VERIF_REPO', '/repo')
+sys.path[:0] = [f'{_R}/{p}' for p in ('cirq-core', 'cirq-google', 'cirq-ionq', 'cirq-aqt', 'cirq-pasqal')]  # the working tree, not the installed release
 from pyvc import api, runner
 runner.load_modules()
 for k in sys.argv[1:]:
